@@ -29,8 +29,10 @@ RULE = ("call histories (one process per shard, 75-300 calls each) mixing anneal
         "Python-side precondition contract on every c_anneal_* call, the H2 in-kernel index assertions, and a fixed "
         "reference call repeated at the end of every history. Non-trivial = call that reached the C kernel with >= 2 "
         "spins and >= 1 sweep; distinct = digest of (function, type, terms, kwargs)")
-TIERS = {"quick": {"shards": 8, "cases": 75, "timeout": 1500},
+TIERS = {"quick": {"shards": 8, "cases": 110, "timeout": 1500},
          "thorough": {"shards": 16, "cases": 5000, "timeout": 6 * 3600, "valgrind_shards": 8, "valgrind_cases": 40}}
+FLOOR_BASE = {"quick": 75, "thorough": 5000}    # case counts the floors below were calibrated for; the launcher scales them
+FLOOR_FIXED = {"reference-call-repeats", "leak-probe-calls"}
 CLASSES = ["single-variable", "matrix-gaps", "fields-only", "no-fields", "high-degree", "raw-repeated-labels",
            "stale-model", "chain-2000", "dense-40", "generic"]
 SCHED = ["empty", "zeros", "extreme", "length-1", "linear", "geometric", "list"]
